@@ -106,6 +106,23 @@ Theorem C17_wildcard_add : forall t l e ms, tree_ok t = true -> e_wild e = true 
 Proof. exact wildcard_add. Qed.
 Print Assumptions C17_wildcard_add.
 
+(* round 6: a wildcard in the last element of src= (below the build root): exactly the matches of the
+   source pattern (for type dir with everything below them) become members, each under the line's name
+   at its path RELATIVE to the globbed source directory; the other members stay *)
+Theorem C17_wildcard_src : forall t l e tail ms, tree_ok t = true ->
+  stageroot_tail (e_source e) = Some tail ->
+  existsb (fun c => Ascii.eqb c c_bsl) (fst (pathsplit (clean tail))) = false ->
+  glob t tail = GOk ms ->
+  let ms' := if e_ltype e =? V_FileType_dir then expand t ms else ms in
+  let d := clean (fst (pathsplit (clean tail))) in
+  let chop := if beq d [c_slash] then O else length d in
+  ms' <> [] ->
+  exists l', add_src_wild t l e = AOk l' /\
+    forall x, In x (names l') <->
+              (In x (names l) \/ exists m, In m ms' /\ x = clean (e_name e ++ c_slash :: skipn chop m)).
+Proof. exact wildcard_src. Qed.
+Print Assumptions C17_wildcard_src.
+
 (* the whole script against the manual, on every well-formed build-root listing *)
 Theorem C17_list_spec : forall t init its,
   tree_ok t = true -> forallb item_ok its = true -> no_kf its = true ->
